@@ -161,7 +161,7 @@ CLAIMS["C12"] = dict(
           "|phi| <= max are sign certificates, symmetry / oddness / homogeneity ring identities, consistency phi(a,a)=a exact "
           "or within the statement's 1e-20/a^2 (or below half an ulp), for minmod, vanalbada, vanleer, superbee; an interval "
           "analysis in log-magnitude over a box partition of [1e-150,1e150]^2 reports intermediates that must overflow. "
-          "Not decided: rounding of individual operations, subnormals, may-overflow."),
+          "Not decided: rounding beyond first order, subnormals, may-overflow."),
     technique="exhaustive region enumeration by positive parametrisation + sign certificates over the GVN ring + interval analysis in log-magnitude",
     ref="DESIGN.md section 4 C12")
 
@@ -234,6 +234,21 @@ EXTRA = {
     "C19": ("role of the data handed to source callables, STATE-MEMO", "persistent-state (memo) analysis"),
     "C20": ("semantic MESH-AVG by symbolic sums, MESH-FROZEN, STATE-MEMO", "symbolic summation over the cell index, alias / in-place effect analysis"),
 }
+# third round (DESIGN.md, "Rules added after the third round")
+EXTRA3 = {
+    "C01": "WALL-SITE (decoded wall call sites), SRC-DECLARED", "C02": "CTOR-PARAM", "C03": "mixed periodicity, BC-COMBO, BC-1D-AGREE inputs, opaque conditions on every path",
+    "C04": "REF-STATE of the nozzle reference, order condition of the implicit names, CTOR-PARAM", "C05": "exact decimal rounding of tableau-derived constants",
+    "C06": "system compared up to a row scaling by diag(dt); column scaling, tiled dt, variable-major column index reported", "C07": "-", "C08": "MON-RESET, class-level history containers",
+    "C10": "cell size with the mesh size as ring atom, CTOR-PARAM", "C11": "KAPPA-PARAM (truthiness of constructor parameters), SEAM-2D presence under mixed periodicity, opaque conditions on every path",
+    "C12": "LIM-ROUND (first-order forward rounding-error domain), LIM-DEFINED, np.isclose tolerances", "C13": "CTOR-PARAM (1D classes), opaque conditions on every path",
+    "C14": "seam closure for every variable of a system, implicit layout, mixed periodicity", "C15": "BC-1D-AGREE incl. clamped regimes, cross-configuration transposition, KAPPA-PARAM",
+    "C16": "CTOR-PARAM", "C17": "NOZ-XC, constructor-frame bindings of derived attributes, CTOR-PARAM", "C18": "DT-LOCAL for the implicit family (tiled / column-scaled dt), CTOR-PARAM",
+    "C19": "caller's source list untouched, CTOR-PARAM(source)", "C20": "every class of the mesh families through its own constructor, MESH-MONO with rounded zone sizes",
+}
+for _pid, _t in EXTRA3.items():
+    if _pid in CLAIMS and _t != "-":
+        EXTRA[_pid] = (EXTRA[_pid][0] + "; third round: " + _t, EXTRA[_pid][1])
+EXTRA["C12"] = (EXTRA["C12"][0], EXTRA["C12"][1] + ", forward rounding-error abstract domain")
 for _pid, (_t, _tech) in EXTRA.items():
     if _pid in CLAIMS:
         CLAIMS[_pid]["text"] = CLAIMS[_pid]["text"] + " Also decided (added after the second round of seeded changes): " + _t + "."
